@@ -3,6 +3,7 @@ package sim
 import (
 	"bytes"
 	"fmt"
+	"strings"
 )
 
 // C17: differential execution.  A generated history is executed once with
@@ -60,6 +61,13 @@ func RunDiff(plan *Plan, thorough bool) *RunResult {
 		b.Evals = 2
 		b.Viol.Msg = fmt.Sprintf("with callback mask %#x (the same history passes without callbacks): %s", mask, b.Viol.Msg)
 		return b
+	}
+	// probes that only the callbacks themselves can hit (counted per name; map
+	// iteration order does not matter for additions)
+	for k, v := range b.Stats.Probes {
+		if strings.Contains(k, "callback") {
+			a.Stats.Probes[k] += v
+		}
 	}
 	// the files must hold the same durable state
 	for di := range a.World.Disks {
